@@ -223,9 +223,14 @@ fn close(a: f64, b: f64, rel: f64) -> bool {
     let scale = a.abs().max(b.abs()).max(1.0);
     (a - b).abs() <= rel * scale
 }
+/// `a` is the reference value; a NaN reference means "not defined by the statement" (the stored
+/// value itself is not finite), then anything is accepted
 fn close32(a: f32, b: f32) -> bool {
-    if a.is_nan() || b.is_nan() {
-        return a.is_nan() && b.is_nan();
+    if a.is_nan() {
+        return true;
+    }
+    if b.is_nan() {
+        return false;
     }
     a == b || (a as f64 - b as f64).abs() <= 2.4e-7 * (a.abs().max(b.abs()).max(1.0)) as f64
 }
